@@ -8,8 +8,10 @@ mod geo;
 mod grid;
 mod gris;
 mod k2;
+mod k3;
 mod s2;
 mod s3;
+mod vtk;
 
 use std::io::{BufRead, BufWriter, Write};
 
@@ -50,6 +52,9 @@ fn step(sess: &mut Sess, toks: &[&str]) -> String {
         return r;
     }
     if let Some(r) = grid::step(sess, toks) {
+        return r;
+    }
+    if let Some(r) = vtk::step(sess, toks) {
         return r;
     }
     if let Some(r) = gris::step(sess, toks) {
